@@ -67,6 +67,12 @@ def cases(ctx):
         ("map.value.three_short", [("t", "int"), ("t2", "int")], "{'type': 'map_value', 'value.dtype.eq': 'int', 'value.gt': t, 'value.lte': t2}", "MapValue(value=(Value.dtype.eq(int) & Value.gt(t)) & Value.lte(t2))", pm),
         ("mol.index.two_short", [("k", "str"), ("n", "int"), ("t", "int")], "{'type': 'map_or_list_value', 'index.greater_than': n, 'index.less_than': t, 'key.eq': k}", "MapOrListValue(index=Index.greater_than(n) & Index.less_than(t), key=k)", pl),
         ("list.index.long", [("n", "int")], "{'type': 'list_value', 'index': {'index.equal_to': n}}", "ListValue(index=n)", pl),
+        # long form and dotted shorthand given together for the same datum: both apply (AND-ed), whichever comes first in the mapping
+        ("map.key.long+short", [("k", "str"), ("n", "int")], "{'type': 'map_value', 'key': {'key.in': [k, 'b']}, 'key.length.less_than': n}", "MapValue(key=Key.length.less_than(n) & Key.in_([k, 'b']))", pm),
+        ("map.key.short+long", [("k", "str"), ("n", "int")], "{'type': 'map_value', 'key.length.less_than': n, 'key': {'key.not_equal_to': k}}", "MapValue(key=Key.length.less_than(n) & Key.not_equal_to(k))", pm),
+        ("list.index.long+short", [("n", "int"), ("t", "int")], "{'type': 'list_value', 'index': {'index.greater_than': n}, 'index.less_than': t}", "ListValue(index=Index.less_than(t) & Index.greater_than(n))", pl),
+        ("mol.key+index.long+short", [("k", "str"), ("n", "int"), ("t", "int")], "{'key': {'key.not_equal_to': k}, 'key.length.gt': 0, 'index': {'index.gte': n}, 'index.lt': t}", "MapOrListValue(key=Key.length.gt(0) & Key.not_equal_to(k), index=Index.lt(t) & Index.gte(n))", pl),
+        ("map.value.long+short", [("t", "int"), ("t2", "int")], "{'type': 'map_value', 'value.less_than': t2, 'value': {'value.greater_than': t}}", "MapValue(value=Value.greater_than(t) & Value.less_than(t2))", pm),
         ("list.index.short", [("n", "int")], "{'type': 'list_value', 'index.less_than': n}", "ListValue(index=Index.less_than(n))", pl),
         ("list.value.long", [("t", "int")], "{'type': 'list_value', 'value': {'value.eq': t}}", "ListValue(value=t)", pl),
         ("list.index+value", [("n", "int"), ("t", "int")], "{'type': 'list_value', 'index.lt': n, 'value': {'value.dtype.eq': 'int'}}", "ListValue(index=Index.lt(n), value=Value.dtype.eq(int))", pl),
